@@ -33,7 +33,7 @@ Theorem C17_reported_order_reachable_partial :
   exists script ns, nd_visit 100 script ([], doc17) = Ok ns /\ map fst ns = order_raxby.
 Proof.
   split; [vm_compute; reflexivity|].
-  exists [0; 0; 1; 0; 0; 1; 2; 3; 4]. eexists. split; vm_compute; reflexivity.
+  exists [0; 0; 1; 0; 0; 1; 2; 2; 2]. eexists. split; vm_compute; reflexivity.
 Qed.
 Print Assumptions C17_reported_order_reachable_partial.
 
